@@ -127,7 +127,7 @@ impl Kind {
         )
     }
     pub fn array_lens() -> &'static [usize] {
-        &[0, 1, 2, 3, 4, 5, 6, 8, 12]
+        &[0, 1, 2, 3, 4, 5, 6, 8, 12, 16, 24]
     }
 }
 
@@ -1152,6 +1152,8 @@ macro_rules! with_array {
             6 => $body($cfg, make_arr::<6>(&$mk)),
             8 => $body($cfg, make_arr::<8>(&$mk)),
             12 => $body($cfg, make_arr::<12>(&$mk)),
+            16 => $body($cfg, make_arr::<16>(&$mk)),
+            24 => $body($cfg, make_arr::<24>(&$mk)),
             other => panic!("unsupported array length {other}"),
         }
     };
